@@ -500,3 +500,13 @@ func copyTree(src, dst string) error {
 		return os.WriteFile(t, b, info.Mode())
 	})
 }
+
+// newConnPair returns the two transfer.Conn ends of a fresh vquic connection (sender side dials).
+func newConnPair() (transfer.Conn, transfer.Conn) {
+	cl, sv := quic.NewPair("conn0")
+	tc, err := transferquic.NewDialer(cl, discardLogger).Dial(context.Background(), "peer")
+	if err != nil {
+		panic(err)
+	}
+	return tc, transferquic.VerifWrapConn(sv, discardLogger)
+}
